@@ -2,6 +2,9 @@ import Sebuf.Lemmas.TsRoute
 import Sebuf.TsHeaders
 import Sebuf.Build
 import Sebuf.Bind
+import Sebuf.Lemmas.PropName
+import Sebuf.Lemmas.Ident
+import Sebuf.Gen.PropNames
 /-!
 # C08 — generated TypeScript clients and servers interoperate with the Go ones
 
@@ -476,5 +479,54 @@ example : JsVal.sameProto (tsPathField .number (lit "42")) (specField .number (s
 example : TsHeaders.dateTimeRegex "2020-01-02T03:04:05.5+02:00".toList = true ∧ TsHeaders.dateTimeRegex "2020-01-02t03:04:05z".toList = false ∧
     TsHeaders.emailRegex "a.b+c@sub.example.org".toList = true ∧ TsHeaders.emailRegex "a@b".toList = false ∧
     TsHeaders.intRegex "-7".toList = true ∧ TsHeaders.intRegex "+5".toList = false ∧ TsHeaders.timeRegex "03:04:05.123".toList = true := by decide
+
+/-! ## Property names: the request field a generated client / server reads is the declared one -/
+
+/-- **the TS client reads a path variable from the property its own interface declares**: for every
+request message whose fields have distinct proto names, the property substituted for the variable
+bound to field `f` is `f`'s JSON name — explicit `json_name` included (holds since `/repo` 97b5191). -/
+theorem client_path_prop_is_declared (fields : List Field) (f : Field) (hf : f ∈ fields)
+    (hd : (fields.map Field.name).Nodup) : PropName.tsClientPathProp fields f.name = f.json := by
+  unfold PropName.tsClientPathProp
+  rw [PropName.find_name_of_distinct fields f hf hd]
+
+/-- the TS server fills the same property from the path. -/
+theorem server_path_prop_is_declared (fields : List Field) (f : Field) (hf : f ∈ fields)
+    (hd : (fields.map Field.name).Nodup) : PropName.tsServerPathProp fields f.name = some f.json := by
+  unfold PropName.tsServerPathProp
+  rw [PropName.find_name_of_distinct fields f hf hd]; rfl
+
+/-- so a value the client reads is the value the caller stored and the server's handler sees it
+under the same name. -/
+theorem client_server_path_prop_agree (fields : List Field) (f : Field) (hf : f ∈ fields)
+    (hd : (fields.map Field.name).Nodup) :
+    PropName.tsServerPathProp fields f.name = some (PropName.tsClientPathProp fields f.name) := by
+  rw [client_path_prop_is_declared fields f hf hd, server_path_prop_is_declared fields f hf hd]
+
+/-- regression witness (entry `ts_client_path_property_not_json_name`, fixed): before the repair
+the client read `req.userId` for `string user_id = 1 [json_name = "uid"]`, a property the
+interface does not declare. -/
+theorem w_client_path_prop_before_fix :
+    let f : Field := { name := "user_id".toList, kind := .string, jsonOverride := some "uid".toList }
+    PropName.tsClientPathPropBeforeFix f.name ≠ f.json ∧ PropName.tsClientPathProp [f] f.name = f.json := by decide
+
+/-- without an explicit `json_name` the old derivation agreed on plain snake_case names: why the
+repository's goldens and tests never showed it. -/
+theorem client_path_prop_before_fix_partial (f : Field) (hn : f.jsonOverride = none) (hs : simpleSnake f.name = true) :
+    PropName.tsClientPathPropBeforeFix f.name = f.json := by
+  unfold PropName.tsClientPathPropBeforeFix Field.json
+  rw [hn]; exact snakeToLowerCamel_eq_jsonName f.name hs
+
+/-- **regenerated tie**: every property name the REAL ts-client, ts-server and openapiv3 plugins
+emit for the probe schema (interface members, `req.<prop>` in path and query building,
+`body.<prop>` filled from path and query, component schema properties) is the JSON name of the
+probe field — with and without an explicit `json_name`. -/
+theorem emitted_property_names_are_json_names :
+    ∀ u ∈ Gen.PropNames.uses, ∃ p ∈ Gen.PropNames.probe, p.1 = u.2.2.1 ∧ u.2.2.2.toList = (PropName.probeField p).json := by decide
+
+/-- every role is observed for both plugins (the tie is not vacuous). -/
+theorem emitted_property_names_cover_roles :
+    ∀ a ∈ ["ts-client", "ts-server"], ∀ r ∈ ["interface:GetReq", "interface:PutReq", "path:GetIt", "path:PutIt", "query:GetIt"],
+      ∃ u ∈ Gen.PropNames.uses, u.1 = a ∧ u.2.1 = r ∧ u.2.2.1 = "user_id" ∨ u.1 = a ∧ u.2.1 = r ∧ u.2.2.1 = "page_size" := by decide
 
 end Sebuf.C08
